@@ -468,9 +468,7 @@ theorem loopRead_fr {g : Bool} (t : S) (item : RxItem) (ok : Bool) : FrH g t (t.
         · split
           · exact ⟨h', by intro r h; injection h with h; subst h; rc_ne⟩
           · split
-            · split
-              · exact ⟨h', by intro r h; injection h with h; subst h; rc_ne⟩
-              · exact ⟨h', by intro r h; injection h with h; subst h; rc_ne⟩
+            · exact ⟨h', by intro r h; injection h with h; subst h; rc_ne⟩
             · exact ⟨h', by intro r h; injection h with h; subst h; rc_ne⟩
 
 end TimerLemmas
